@@ -23,7 +23,7 @@ def one(c, pvk, pvki, pin, pan):
 
 
 def generate(rng, tier, seed):
-    for e in corpus("C10"):
+    for e in corpus("C10") + corpus("C10", "patterns.jsonl"):
         c = Case(f"corpus:{e['decimal_nibbles']}-decimal-nibbles", {})
         one(c, bytes.fromhex(e["pvk"]), e["pvki"], e["pin"], e["pan"])
         yield c
